@@ -594,6 +594,7 @@ func checkC16(w *World, r *Report) {
 	}
 	checkGlobalMemos(w, r, "R16.6", func(f *ssa.Function) bool { return codec[f] })
 	checkSaveWrites(w, r)
+	checkCompiledImmutable(w, r)
 	checkLoadedTreeIsParsed(w, r)
 }
 
@@ -1460,4 +1461,55 @@ func checkLoadedTreeIsParsed(w *World, r *Report) {
 		}
 	})
 	r.floor("stores of the loaded template's tree", n, 1)
+}
+
+// checkCompiledImmutable — R16.1c: what was compiled is what is stored.  The fields of a
+// CompiledTemplate are assigned only while the value is being built (in the function that
+// allocates it: the compiler's literal, the decoder's fresh value); no function rewrites a
+// field of a compiled template it received from a call or a parameter ("goes by the name it was
+// asked for"): name, source and timestamps of the compiled form are those of the template.
+func checkCompiledImmutable(w *World, r *Report) {
+	n, bad := 0, 0
+	for _, fn := range w.pkgFuncs() {
+		instrsOf(fn, func(in ssa.Instruction) {
+			st, ok := in.(*ssa.Store)
+			if !ok {
+				return
+			}
+			fa, ok := st.Addr.(*ssa.FieldAddr)
+			if !ok {
+				return
+			}
+			tn, f := fieldOfAddr(fa)
+			if tn != "CompiledTemplate" {
+				return
+			}
+			n++
+			base := fa.X
+			for k := 0; k < 3; k++ {
+				if u := unspill(base); u != base {
+					base = u
+				}
+			}
+			fresh := false
+			switch x := base.(type) {
+			case *ssa.Alloc:
+				fresh = true
+			case *ssa.Phi:
+				fresh = true
+				for _, e := range x.Edges {
+					if _, isAl := e.(*ssa.Alloc); !isAl {
+						fresh = false
+					}
+				}
+			}
+			if fresh {
+				r.ok("R16.1", ssaName(fn), "store CompiledTemplate."+f, w.posOf(in.Pos()), "field of the value being built in this function", false)
+			} else {
+				bad++
+				r.bad("R16.1", ssaName(fn), "store CompiledTemplate."+f, w.posOf(in.Pos()), "the field "+f+" of a compiled template that was built elsewhere is overwritten: the compiled form no longer carries the name/source/timestamps of the template it was compiled from, so what is read back (and how its relative includes resolve) differs from the original")
+			}
+		})
+	}
+	r.Counts["stores to CompiledTemplate fields"] = n
 }
